@@ -74,6 +74,9 @@ class FileContracts:
         self.contracted = []      # [(qualname, [clauses], kind)]
         self.assumed = []         # external_body etc: [(qualname, what)]
         self.renames = {}         # qualname -> {name the contracts were written against: current parameter name}
+        self.force_external = set()   # qualnames whose body turned out to be outside Verus's subset (second pass)
+        self.auto_external = []
+        self.lost = []            # contracts / annotations whose anchor no longer exists (localized undecidedness)
         self.skipped = []         # optional helper contracts whose function no longer exists
         self.lemmas = []          # proof fns in the epilogue that are obligations: [(name, tags)]
 
@@ -106,10 +109,14 @@ class FileContracts:
         try:
             f = self.fn(name, within, nth)
         except LostAnchor:
+            qn = '%s::%s%s' % (self.relpath, (within + '::') if within else '', name)
             if optional:
-                self.skipped.append('%s::%s%s' % (self.relpath, (within + '::') if within else '', name))
+                self.skipped.append(qn)
                 return None
-            raise
+            # the function is gone (renamed, inlined, deleted): every property its contract carried becomes undecided,
+            # the rest of the crate is still decided
+            self.lost.append(dict(q=qn, relpath=self.relpath, within=within, name=name, tags=list(tags), ensures=list(ensures), why='function not found'))
+            return None
         q = self._qual(f, within)
         # contracts name parameters; if a parameter was renamed since the contracts were written, rename in the ghost text
         snap = _snapshot().get(q)
@@ -127,6 +134,9 @@ class FileContracts:
         indent = re.match(r'\s*', self.text[ls:]).group(0)
         # attributes go before the whole item line (before pub / #[inline] is fine: before `fn`'s line start)
         item_start = ls
+        if q in getattr(self, 'force_external', ()) and not external_body:
+            external_body = True
+            self.auto_external.append(q)
         a = list(attrs)
         if external_body:
             a.append('#[verifier::external_body]')
@@ -149,7 +159,14 @@ class FileContracts:
                                     kind='external_body' if external_body else 'verified', tags=list(tags), note=note))
         return f
 
-    def replace_in(self, name, old, new, within=None, nth=0, occ=0, kind='closure', count=1):
+    def replace_in(self, name, *a, **k):
+        try:
+            return self._replace_in_raw(name, *a, **k)
+        except LostAnchor as e:
+            self.lost.append(dict(q='%s::%s%s' % (self.relpath, (k.get('within') + '::') if k.get('within') else '', name), relpath=self.relpath, within=k.get('within'), name=name, tags=[], ensures=[], why=str(e)))
+            return None
+
+    def _replace_in_raw(self, name, old, new, within=None, nth=0, occ=0, kind='closure', count=1):
         """replace the occ-th (or all, occ='all') code occurrence of literal `old` inside fn `name` by `new`."""
         f = self.fn(name, within, nth)
         lo, hi = (f.body_open, f.body_close) if f.body_open >= 0 else (f.kw, f.body_close)
@@ -173,7 +190,14 @@ class FileContracts:
             self.ed.replace(p, p + len(old), new, kind, self._qual(f, within))
         return len(sel)
 
-    def insert_after(self, name, anchor, text, within=None, nth=0, occ=0, kind='proof'):
+    def insert_after(self, name, *a, **k):
+        try:
+            return self._insert_after_raw(name, *a, **k)
+        except LostAnchor as e:
+            self.lost.append(dict(q='%s::%s%s' % (self.relpath, (k.get('within') + '::') if k.get('within') else '', name), relpath=self.relpath, within=k.get('within'), name=name, tags=[], ensures=[], why=str(e)))
+            return None
+
+    def _insert_after_raw(self, name, anchor, text, within=None, nth=0, occ=0, kind='proof'):
         f = self.fn(name, within, nth)
         lo, hi = f.body_open, f.body_close
         i = lo
@@ -188,7 +212,14 @@ class FileContracts:
             i += len(anchor)
         self.ed.insert(i + len(anchor), self._ren(self._qual(f, within), text), kind, self._qual(f, within))
 
-    def insert_before(self, name, anchor, text, within=None, nth=0, occ=0, kind='proof'):
+    def insert_before(self, name, *a, **k):
+        try:
+            return self._insert_before_raw(name, *a, **k)
+        except LostAnchor as e:
+            self.lost.append(dict(q='%s::%s%s' % (self.relpath, (k.get('within') + '::') if k.get('within') else '', name), relpath=self.relpath, within=k.get('within'), name=name, tags=[], ensures=[], why=str(e)))
+            return None
+
+    def _insert_before_raw(self, name, anchor, text, within=None, nth=0, occ=0, kind='proof'):
         f = self.fn(name, within, nth)
         lo, hi = f.body_open, f.body_close
         i = lo
@@ -268,7 +299,7 @@ def _wrap_closure_block(self, name, head_old, head_new, within=None, nth=0, occ=
     self.ed.insert(cb + 1, ' }', 'closure', self._qual(f, within))
 
 
-FileContracts.wrap_closure_block = _wrap_closure_block
+FileContracts._wrap_closure_block_raw = _wrap_closure_block
 
 
 def _body_prefix(self, name, text, within=None, nth=0):
@@ -279,7 +310,7 @@ def _body_prefix(self, name, text, within=None, nth=0):
     self.ed.insert(f.body_open + 1, '\n' + self._ren(self._qual(f, within), text), 'proof', self._qual(f, within))
 
 
-FileContracts.body_prefix = _body_prefix
+FileContracts._body_prefix_raw = _body_prefix
 
 
 def _lemma(self, name, tags):
@@ -326,5 +357,20 @@ def _wrap_closure_block_re(self, name, pattern, template, within=None, nth=0, oc
     self.ed.insert(cb + 1, ' }', 'closure', self._qual(f, within))
 
 
-FileContracts.replace_in_re = _replace_in_re
-FileContracts.wrap_closure_block_re = _wrap_closure_block_re
+FileContracts._replace_in_re_raw = _replace_in_re
+FileContracts._wrap_closure_block_re_raw = _wrap_closure_block_re
+
+
+def _soft(rawname):
+    def f(self, name, *a, **k):
+        try:
+            return getattr(self, rawname)(name, *a, **k)
+        except LostAnchor as e:
+            self.lost.append(dict(q='%s::%s%s' % (self.relpath, (k.get('within') + '::') if k.get('within') else '', name), relpath=self.relpath,
+                                  within=k.get('within'), name=name, tags=[], ensures=[], why=str(e)))
+            return None
+    return f
+
+
+for _m in ('wrap_closure_block', 'body_prefix', 'replace_in_re', 'wrap_closure_block_re'):
+    setattr(FileContracts, _m, _soft('_%s_raw' % _m))
